@@ -258,7 +258,7 @@ func MonMemoBudget(a *Analysis, sites []*tagSite) ([]Violation, map[int64][2]int
 	obs := map[int64][2]int{}
 	calls := map[int64]int{}
 	for _, c := range a.Res.Calls {
-		if strings.HasPrefix(c.Name, "Tag") && len(c.Args) > 0 {
+		if (strings.HasPrefix(c.Name, "Tag") || c.Name == "Ptr") && len(c.Args) > 0 {
 			if id, ok := c.Args[0].(int64); ok {
 				calls[id]++
 			}
@@ -298,6 +298,13 @@ func runC13Case(c *Ctx, idx int) *CaseResult {
 		// invalidation event
 		sites = c13Bare(r, prog, sites)
 		cr.inc("bare_call_condition_programs")
+	}
+	if idx >= tierN(1500, 60000)(c.Tier)+tierN(200, 6000)(c.Tier) {
+		// appended behind those: a counted call whose argument is itself a call, used as the
+		// receiver of different members in different rules (the call atom is shared, the member
+		// expressions are not)
+		sites = c13Nested(r, prog, sites)
+		cr.inc("nested_call_receiver_programs")
 	}
 	pipeline := pipelines[r.Intn(len(pipelines))]
 	style := traceStyle(c.Rng(idx, 1))
@@ -361,11 +368,42 @@ func runC13Case(c *Ctx, idx int) *CaseResult {
 func init() {
 	register(&Check{
 		ID: "C13", Level: "exploration",
-		Rule: "rule sets (2-12 rules) into which 1-3 counted pure method calls T.Tag(id,...) are injected, each with identical text in k>=1 rules (either operand of && / ||, inside arithmetic, in then right-hand sides), run lengths 1-60 cycles, all four build pipelines; oracle = calls logged per id <= 1 + invalidation events from the validated trace (executed assignments overlapping a variable of the call, Forget/Changed naming it; generous overlap: a selector matches any element); non-trivial = distinct (program, state, call text) where the text occurs in >=2 rules, the run has >=3 cycles and the method was called; statement calls that are handed a pointer to a fact (no invalidation event); appended cases in which one boolean counted call is the WHOLE condition of two rules (plain / negated) and an operand in all others",
+		Rule: "rule sets (2-12 rules) into which 1-3 counted pure method calls T.Tag(id,...) are injected, each with identical text in k>=1 rules (either operand of && / ||, inside arithmetic, in then right-hand sides), run lengths 1-60 cycles, all four build pipelines; oracle = calls logged per id <= 1 + invalidation events from the validated trace (executed assignments overlapping a variable of the call, Forget/Changed naming it; generous overlap: a selector matches any element); non-trivial = distinct (program, state, call text) where the text occurs in >=2 rules, the run has >=3 cycles and the method was called; statement calls that are handed a pointer to a fact (no invalidation event); appended cases in which one boolean counted call is the WHOLE condition of two rules (plain / negated) and an operand in all others; appended behind those, a counted call with a call as its argument, T.Ptr(8, T.Cnt(F.A)), as the receiver of .X / .N in every rule",
 		Assume: []string{"methods never fail (a failed evaluation is legitimately retried)", "the generous overlap reading can miss an unnecessary re-evaluation between sibling elements but never accuses correct code"},
-		Cases:  func(t string) int { return tierN(1500, 60000)(t) + tierN(200, 6000)(t) },
+		Cases:  func(t string) int { return tierN(1500, 60000)(t) + tierN(200, 6000)(t) + tierN(100, 3000)(t) },
 		Run:    runC13Case,
 	})
+}
+
+// c13Nested adds T.Ptr(8, T.Cnt(F.A)) as the receiver of .X in some rules and of .N in the others.
+func c13Nested(r *rand.Rand, prog *Program, sites []*tagSite) []*tagSite {
+	if len(prog.Rules) < 2 {
+		return sites
+	}
+	arg := VarE(P("F.A"), TInt, reflect.Int64)
+	call := CallE(tool(), "Ptr", TAny, reflect.Ptr, LitI(8), CallE(tool(), "Cnt", TInt, reflect.Int64, arg))
+	s := &tagSite{ID: 8, Call: call, Text: ExprText(call), Rules: map[string]bool{}, Ty: TInt, Vars: []*Path{P("F.A"), P("T")}}
+	if len(sites) > 0 && sites[0].ProgVars != nil {
+		s.ProgVars = sites[0].ProgVars
+	} else {
+		s.ProgVars = map[string]bool{}
+	}
+	s.ProgVars["F.A"] = true
+	for i, rule := range prog.Rules {
+		s.Rules[rule.Name] = true
+		fn, gk := "X", reflect.Int64
+		if i%2 == 1 {
+			fn, gk = "N", reflect.Int32
+		}
+		m := &Expr{Op: "member", Ty: TInt, GK: int(gk), Fn: fn, L: call}
+		cond := Bin([]string{"<", ">", "!=", ">="}[r.Intn(4)], TBool, m, LitI(int64(r.Intn(9))-2))
+		if r.Intn(2) == 0 {
+			rule.When = Bin([]string{"&&", "||"}[r.Intn(2)], TBool, cond, rule.When)
+		} else {
+			rule.When = Bin([]string{"&&", "||"}[r.Intn(2)], TBool, rule.When, cond)
+		}
+	}
+	return append(sites, s)
 }
 
 // c13Bare rewrites the program so that one boolean counted call is the whole condition of two
